@@ -242,7 +242,7 @@ theorem encodeMap_sorted {V : Type} (C : Codec V) (pay : V → List Bool × List
       obtain ⟨hfe, hfb, hfr⟩ := hfit (k0, v0) (by simp)
       have hw := minBits_mono hmn
       have hl := canonLbl_enc_length p m
-      simp only [encodeMap]
+      simp only [encodeMap, encodeFork]
       rw [hcl]
       simp only []
       rw [hK, hsplit]
